@@ -302,7 +302,7 @@ theorem ics20_foreign_le {cfg : Cfg} (hd : Distinct cfg) {c c' : Ctx} {pkt : Pac
             intro dn
             have := s2 dn
             simp only [Ctx.mint, Ledger.mint_bal] at this
-            have hnm : ¬ (cfg.orbAddr = cfg.transferModule ∧ dn = cfg.voucherDenom (denomPrefix pkt.dstPort pkt.dstChan ++ d.denom)) :=
+            have hnm : ¬ (cfg.orbAddr = cfg.transferModule ∧ dn = ibcDenom cfg (denomPrefix pkt.dstPort pkt.dstChan ++ d.denom)) :=
               fun e => hd.transfer e.1.symm
             simpa [hnm] using this
 
